@@ -8,8 +8,8 @@ for id in "$@"; do
   wt=/var/tmp/demo-wt.$$.$id
   git -C /repo worktree add --detach "$wt" HEAD >/dev/null 2>&1 || { echo "$id: cannot create worktree"; continue; }
   mkdir -p "$wt/MUTANT"; cp -r "/verif/seeded/$id/demo" "$wt/MUTANT/demo"; cp "/verif/seeded/$id/patch.diff" "$wt/MUTANT/patch.diff"
-  (cd "$wt" && $GO test -vet=off -count=1 -tags "mutantdemo c04demo" ./MUTANT/demo/ >"$wt/without.out" 2>&1); wo=$?
-  (cd "$wt" && git apply MUTANT/patch.diff && $GO test -vet=off -count=1 -tags "mutantdemo c04demo" ./MUTANT/demo/ >"$wt/with.out" 2>&1); w=$?
+  (cd "$wt" && $GO test -vet=off -count=1 -tags "mutantdemo c04demo c02demo c03bdemo c17demo" ./MUTANT/demo/ >"$wt/without.out" 2>&1); wo=$?
+  (cd "$wt" && git apply MUTANT/patch.diff && $GO test -vet=off -count=1 -tags "mutantdemo c04demo c02demo c03bdemo c17demo" ./MUTANT/demo/ >"$wt/with.out" 2>&1); w=$?
   echo "$id demonstration: unchanged tree exit=$wo, with change exit=$w"
   [ -n "$KEEP" ] || { git -C /repo worktree remove --force "$wt"; rm -rf "$wt"; }
 done
